@@ -68,6 +68,13 @@ def timeout_case(case):
       if kind == 'killable':
         s.sleep(d)
         return None
+      if kind == 'repeats':
+        # every invocation stays inside its own timeout; together they take longer than one timeout
+        s.sleep(d)
+        if inv < 2:
+          return htf.PhaseResult.REPEAT
+        test.measurements.pm = 5
+        return None
       # unkillable / late: swallow the termination error once and keep going
       try:
         s.sleep(d if d < 1e6 else (case['t'] if case['t'] is not None else 180.0) + 10.0)
@@ -174,6 +181,9 @@ def check_timeout(case):
       r.bad('C12/timeout/false-timeout', '%s t=%s d=%s: body returned before its deadline but outcome %s records %r' % (tag, case['t'], case['d'], res['outcome'], puts))
     elif case['kind'] == 'returns' and not (puts and puts[-1][1] == 'PASS' and puts[-1][3].get('pm', (None,))[0] == 'PASS'):
       r.bad('C12/timeout/own-result-lost', '%s: body finished in time but its record is %r' % (tag, puts))
+    elif case['kind'] == 'repeats' and not (n_inv == 3 and puts and puts[-1][1] == 'PASS' and puts[-1][3].get('pm', (None,))[0] == 'PASS'):
+      r.bad('C12/timeout/own-result-lost', '%s t=%s d=%s: three invocations, each within its timeout (REPEAT, REPEAT, then a value): %d invocations, records %r' % (
+          tag, case['t'], case['d'], n_inv, puts))
     elif case['kind'] == 'late' and not (puts and puts[-1][1] == 'FAIL'):
       r.bad('C12/timeout/own-result-lost', '%s: body returned FAIL_AND_CONTINUE in time but its record is %r' % (tag, puts))
   elif d > t + POLL + EPS and not stalled:
@@ -209,6 +219,9 @@ def timeout_grid():
             if d != 'inf' and d < 0:
               continue
             yield {'t': t, 'd': d if d == 'inf' else round(d, 4), 'kind': kind, 'pos': pos, 'rot': rot}
+    for frac in (0.3, 0.4, 0.6, 0.9):
+      for pos in ('alone', 'main', 'setup', 'teardown'):
+        yield {'t': t, 'd': round(tt * frac, 4), 'kind': 'repeats', 'pos': pos, 'rot': False}
 
 
 # ------------------------------------------------------------------ domain 2
